@@ -1,2 +1,79 @@
-(** Property C02 — theorems (proofs in Proofs/MuxProofs.v); extended as the proof development grows *)
-From MP4 Require Import Writer MuxProofs.
+(** Property C02 — the muxer's output is valid and self-consistent (theorems; proofs in Proofs/MuxInv.v) *)
+From MP4 Require Import Writer SampleTable IsoFile MuxProofs MuxInv.
+Open Scope list_scope.
+Open Scope N_scope.
+
+(** For every run of the muxer model that returns [Ok] (no size bound is needed here):
+    - every track's tables pass the independent validator [track_tables_ok] for exactly the accepted samples
+      and their summed duration; mdhd duration = summed duration; tkhd duration = floor(mdhd * movie timescale
+      / track timescale), saturated at u64::MAX ([tkhd_of]);
+    - every chunk extent of every track lies inside the mdat payload [mdat_pos + 16, end of output];
+    - the chunk extents of all tracks are pairwise disjoint;
+    - mvhd duration = the largest tkhd duration. *)
+Definition C02_statement : Prop := forall m base cfg ops cls f,
+  run_mux m base cfg ops = Ok (cls, f) -> ops_typed ops = true ->
+  (forall i tf, nth_error (mf_tracks f) i = Some tf ->
+     let ss := accepted_samples ops cls (N.of_nat i + 1) in
+     track_tables_ok (tf_tables tf) (lenN ss) (sumN (map ws_duration ss)) = true /\
+     wh_mdhd_duration (tf_hdr tf) = sumN (map ws_duration ss) /\
+     wh_tkhd_duration (tf_hdr tf) =
+       tkhd_of (wh_mdhd_duration (tf_hdr tf)) (mf_mvhd_timescale f) (tc_timescale (tf_conf tf))) /\
+  forallb (forallb (within (mf_mdat_pos f + 16) (mf_base f + lenN (mf_out f)))) (map track_extents (mf_tracks f)) = true /\
+  pairwise_disjoint (concat (map track_extents (mf_tracks f))) = true /\
+  mf_mvhd_duration f = fold_left N.max (map (fun tf => wh_tkhd_duration (tf_hdr tf)) (mf_tracks f)) 0.
+
+Theorem C02_valid_output : C02_statement.
+Proof. exact mux_valid. Qed.
+Print Assumptions C02_valid_output.
+
+(** the chunks tile the payload exactly: headers + chunk lengths = output length (with disjointness: no gaps) *)
+Theorem C02_chunks_cover_payload : forall m base cfg ops cls f,
+  run_mux m base cfg ops = Ok (cls, f) -> ops_typed ops = true ->
+  mf_base f + lenN (mf_out f) = mf_mdat_pos f + 16 + sumN (map snd (concat (map track_extents (mf_tracks f)))).
+Proof. exact mux_extents_cover. Qed.
+Print Assumptions C02_chunks_cover_payload.
+
+(** version-0 headers are only used for durations that fit 32 bits *)
+Theorem C02_header_versions : forall m base cfg ops cls f,
+  run_mux m base cfg ops = Ok (cls, f) -> ops_typed ops = true ->
+  ((mf_mvhd_version f =? 1) || (mf_mvhd_duration f <? U32)) = true /\
+  forall i tf, nth_error (mf_tracks f) i = Some tf ->
+    ((wh_mdhd_version (tf_hdr tf) =? 1) || (wh_mdhd_duration (tf_hdr tf) <? U32)) = true /\
+    ((wh_tkhd_version (tf_hdr tf) =? 1) || (wh_tkhd_duration (tf_hdr tf) <? U32)) = true.
+Proof. exact mux_versions. Qed.
+Print Assumptions C02_header_versions.
+
+(** with the size bound, the tables are also [consistent] in the sense of the sample-table specification *)
+Theorem C02_tables_consistent : forall m base cfg ops cls f,
+  run_mux m base cfg ops = Ok (cls, f) -> ops_typed ops = true -> history_fits base cfg ops cls = true ->
+  forall i tf, nth_error (mf_tracks f) i = Some tf -> consistent (tf_tables tf) = true.
+Proof. exact mux_consistent. Qed.
+Print Assumptions C02_tables_consistent.
+
+(** ** Non-vacuity on the concrete history of [MuxInv.ex_ops] (two interleaved tracks, zero-length samples,
+      size switch, late ctts, non-sync samples, four rejected calls) *)
+Example C02_ex_runs : exists f, run_mux Dbg 100 ex_cfg ex_ops = Ok (ex_cls, f) /\ ops_typed ex_ops = true.
+Proof. eexists. split; vm_compute; reflexivity. Qed.
+
+Example C02_ex_extents :
+  match run_mux Dbg 100 ex_cfg ex_ops with
+  | Ok (_, f) =>
+      map track_extents (mf_tracks f) = [[(140, 6); (150, 1); (151, 0)]; [(146, 4); (151, 0)]] /\
+      mf_mdat_pos f + 16 = 140 /\ mf_base f + lenN (mf_out f) = 151 /\
+      map (fun tf => (wh_mdhd_duration (tf_hdr tf), wh_tkhd_duration (tf_hdr tf))) (mf_tracks f) = [(2300, 2300); (72000, 1500)] /\
+      mf_mvhd_duration f = 2300 /\
+      map (fun tf => t_stsc (tf_tables tf)) (mf_tracks f)
+        = [[mkStsc 1 2 1 1; mkStsc 3 1 1 6]; [mkStsc 1 2 1 1; mkStsc 2 1 1 4]]
+  | _ => False
+  end.
+Proof. vm_compute. repeat split; reflexivity. Qed.
+
+(** the validator is not trivially true: it rejects the same tables with one sample dropped from the count *)
+Example C02_ex_validator_discriminates :
+  match run_mux Dbg 100 ex_cfg ex_ops with
+  | Ok (_, f) => map (fun tf => (track_tables_ok (tf_tables tf) 5 2300, track_tables_ok (tf_tables tf) 4 2300,
+                                 track_tables_ok (tf_tables tf) 5 2299)) (mf_tracks f)
+                 = [(true, false, false); (false, false, false)]
+  | _ => False
+  end.
+Proof. vm_compute. reflexivity. Qed.
